@@ -116,7 +116,9 @@ func main() {
 				vw.WriteByte('\n')
 			}
 		}
-		_ = os.RemoveAll(*work)
+		if os.Getenv("VERIF_KEEP") == "" { // VERIF_KEEP=1 keeps the rendered directories for a manual look
+			_ = os.RemoveAll(*work)
+		}
 		stats := map[string]interface{}{"cases": cases}
 		for k, v := range env.stats {
 			stats[k] = v
